@@ -20,8 +20,8 @@ ASSUMPTIONS = [
     "PENDULUM_EXTENSIONS=0; the compiled parser is cross-run concretely on every explored path's model",
 ]
 OUTSIDE = ["the Rust duration parser (text loop, f64): concrete cross-run only", "numbers longer than the stated digit counts",
-           "fractions longer than 3 digits on W/D/H/M (float results are then not always microsecond exact) -- "
-           "seconds fractions are covered to 9 digits"]
+           "fractions on W/D/H/M other than 1-3 digits (exact) and 8-10 digits (one-digit whole part; rounded to the "
+           "nearest microsecond, an exact tie may go either way) -- seconds fractions are covered to 9 digits"]
 REACH = ["fraction on days", "fraction on seconds beyond microseconds", "all components present", "weeks form",
          "rejected out of order", "too large rejected"]
 UNIT_US = dict(W=7 * 86400 * 10**6, D=86400 * 10**6, H=3600 * 10**6, M=60 * 10**6, S=10**6)
@@ -78,8 +78,11 @@ def duration_shape(ctx, comps, nd, frac_on, nfrac, fsep):
             ctx.claim("remaining length is the exact value", rest == exact + q)
         else:
             # rounded to the microsecond (half up, as the compiled parser does)
+            # an exact tie (…5 us) may go either way on a non-second unit: the property does not fix a tie rule and the
+            # float pipeline (timedelta) rounds half to even
+            up = rest == exact + q + ite(2 * rem >= den, 1, 0)
             ctx.claim("remaining length is the exact value rounded to the microsecond",
-                      rest == exact + q + ite(2 * rem >= den, 1, 0))
+                      up if frac_on == "S" else OR(up, AND(2 * rem == den, rest == exact + q)))
         ctx.reach("fraction on days", frac_on == "D")
         ctx.reach("fraction on seconds beyond microseconds", AND(frac_on == "S", nfrac > 6))
     else:
@@ -215,6 +218,13 @@ def cases(tier):
             add(c, on, nf, sep)
     for nf in (6, 7, 9):
         add("S", "S", nf, ".")
+    # long fractions on a non-second unit: exact value k * 0.6 us (minutes), never within 0.1 us of a half, so the
+    # float pipeline must round to the nearest microsecond
+    add("m", "m", 8, ".", nd_=1)
+    add("H", "H", 10, ".", nd_=1)
+    add("D", "D", 10, ".", nd_=1)
+    add("W", "W", 10, ".", nd_=1)
+    add("Hm", "m", 9, ",", nd_=1)
     for tmpl, why in (("P#D#M", "out of order"), ("PT#S#M", "out of order"), ("PT#M#H", "out of order"), ("P#.#Y", "fractional years"),
                       ("P#.#M", "fractional months"), ("P###########D", "too large"), ("PT##############S", "too large")):
         out.append(dict(name=f"rejected {tmpl}", fn=rejected, params=dict(text_tmpl=tmpl, why=why),
